@@ -206,6 +206,7 @@ func (h) Gen(r *hlib.Rand, tier string, scale int, emit func(string)) {
 			}
 		}
 		emit("inc " + hlib.Hex(b))
+		emit("incpc " + hlib.Hex(b))
 	}
 	// end-to-end: a real index with one document per value, searched with NumericRangeQuery
 	vals := []uint64{}
@@ -344,6 +345,8 @@ func (h) Exec(line string, out func(string, string), st *hlib.Stats, work string
 			return strconv.FormatBool(hit)
 		case "inc":
 			return hlib.Hex(searcher.VerifIncrementBytes(unhex(w[1])))
+		case "incpc":
+			return hlib.Hex(searcher.VerifIncrementPrefixCoded(unhex(w[1])))
 		case "rangeq":
 			return rangeq(w)
 		case "il":
